@@ -203,14 +203,35 @@ def q(ns, name):
     return f"{{{ns}}}{name}"
 
 
-def read_manifest(xml: bytes):
+def read_manifest(xml: bytes, request_url: str = "http://localhost/"):
     """-> list of adaptation sets: dict(content_type, rep_ids, cps=[dict(scheme, default_kid,
-    pssh(bytes|None), pro(bytes|None), laurl, marlin_ids, value)])"""
+    pssh(bytes|None), pro(bytes|None), laurl, marlin_ids, value)], init_urls={rep id: URL the
+    manifest advertises for the init segment, resolved against the BaseURL chain; None if there is
+    no SegmentTemplate@initialization})"""
     root = etree.fromstring(xml)
+
+    def base_of(el, base):
+        b = el.find(q(MPD_NS, "BaseURL"))
+        return urllib.parse.urljoin(base, (b.text or "").strip()) if b is not None else base
+
     out = []
+    mpd_base = base_of(root, request_url)
     for period in root.iter(q(MPD_NS, "Period")):
+        period_base = base_of(period, mpd_base)
         for adp in period.findall(q(MPD_NS, "AdaptationSet")):
+            adp_base = base_of(adp, period_base)
+            adp_tmpl = adp.find(q(MPD_NS, "SegmentTemplate"))
             reps = adp.findall(q(MPD_NS, "Representation"))
+            init_urls = {}
+            for rep in reps:
+                tmpl = rep.find(q(MPD_NS, "SegmentTemplate"))
+                tmpl = tmpl if tmpl is not None else adp_tmpl
+                init = tmpl.get("initialization") if tmpl is not None else None
+                if init is None:
+                    init_urls[rep.get("id")] = None
+                    continue
+                init = init.replace("$RepresentationID$", rep.get("id") or "").replace("$Bandwidth$", rep.get("bandwidth") or "")
+                init_urls[rep.get("id")] = urllib.parse.urljoin(base_of(rep, adp_base), init.replace("$$", "$"))
             cps = []
             holders = [adp] + reps
             for holder in holders:
@@ -234,8 +255,14 @@ def read_manifest(xml: bytes):
                         on="adaptation" if holder is adp else "representation"))
             out.append(dict(content_type=adp.get("contentType") or (adp.get("mimeType") or "").split("/")[0],
                             rep_ids=[r.get("id") for r in reps], cps=cps,
-                            period=period.get("id")))
+                            period=period.get("id"), init_urls=init_urls))
     return out
+
+
+def local_path(url: str) -> str:
+    """absolute URL of the test server -> path?query for the WSGI client"""
+    u = urllib.parse.urlsplit(url)
+    return u.path + ("?" + u.query if u.query else "")
 
 
 def system_of_scheme(scheme: str) -> str | None:
